@@ -254,7 +254,8 @@ theorem truncI_spec (s : State K) (start : ℤ) (stop : Option ℤ) :
   rintro b rfl hb
   exact step_truncI_stop_gt s start b hb
 
-/-- `slice_by_index(start, stop, step)` is `(x[start:stop:step], y[start:stop:step])`;
+/-- `slice_by_index(start, stop, step)` is `(x[start:stop:step], y[start:stop:step])` (a negative
+`stop` counts from the end);
 `start < 0` and `stop > len(x)` are rejected with `ValueError` -/
 theorem sliceByIndex_spec (s : State K) (start stop step : ℕ) (hs : 1 ≤ step)
     (h : stop ≤ s.x.length) :
@@ -262,9 +263,14 @@ theorem sliceByIndex_spec (s : State K) (start stop step : ℕ) (hs : 1 ≤ step
         = .ok (sliceStep s.x start stop step, sliceStep s.y start stop step) ∧
     sliceByIndex s (start : ℤ) none step
         = .ok (sliceStep s.x start s.x.length step, sliceStep s.y start s.x.length step) ∧
+    (∀ b : ℤ, b < 0 → -b ≤ s.x.length →
+      sliceByIndex s (start : ℤ) (some b) step
+        = .ok (sliceStep s.x start ((s.x.length : ℤ) + b).toNat step,
+               sliceStep s.y start ((s.x.length : ℤ) + b).toNat step)) ∧
     (∀ (a : ℤ) (b : Option ℤ), a < 0 → sliceByIndex s a b step = .error .valueError) ∧
     (∀ (a b : ℤ), (s.x.length : ℤ) < b → sliceByIndex s a (some b) step = .error .valueError) :=
   ⟨sliceByIndex_nat s start stop step h hs, sliceByIndex_none s start step hs,
+    fun b hb hb2 => sliceByIndex_neg_stop s start b step hs hb hb2,
     fun a b ha => sliceByIndex_neg_start s a b step ha,
     fun a b hb => sliceByIndex_stop_gt s a b step hb⟩
 
